@@ -34,7 +34,7 @@ def resultJson (r : StmtResult) : Json :=
   Json.mkObj [
     ("cols", Json.arr (r.cols.map Json.str).toArray),
     ("rows", Json.arr (r.rows.map (fun row => Json.arr (row.map valueToWire).toArray)).toArray),
-    ("n", Json.num ⟨r.affected, 0⟩)]
+    ("n", Json.num ⟨r.affected, 0⟩)] |>.mergeObj (if r.tieSensitive then Json.mkObj [("tie", true)] else Json.mkObj [])
 
 def natField (j : Json) (k : String) : Except String Nat :=
   match j.getObjVal? k with
